@@ -14,10 +14,10 @@ open Mp4ff.Stbl
 
 /-- `findEndTime` on the reference track: (endTime in the reference track's timescale) -/
 def findEndTime (stts : Stts) (stss : Option (List Nat)) (timescale durationMS : Nat) : Option Nat := do
-  let endTime := (durationMS * timescale) % U64 / 1000
+  let endTime := ((durationMS * timescale) % U64 + 999) % U64 / 1000      -- rounded up
   let last0 â† stts.getSampleNrAtTime endTime
   let last â† match stss with
-    | none => some last0
+    | none => some ((last0 + U32 - 1) % U32)        -- all samples are sync samples: end just before that one
     | some nums =>
       -- for sampleNr := lastSampleNr; sampleNr <= last sync sample; sampleNr++ { if IsSyncSample â€¦ }
       let lastSync â† nums.getLast?
@@ -34,7 +34,9 @@ def findEndTime (stts : Stts) (stss : Option (List Nat)) (timescale durationMS :
 /-- `findTrakEnds` for one track: last kept sample number -/
 def trackEnd (stts : Stts) (trackTimescale endTime endTimescale : Nat) : Option Nat := do
   if endTimescale = 0 then none else
-  let te := if trackTimescale â‰  endTimescale % U32 then (endTime * trackTimescale) % U64 / endTimescale else endTime
+  let te := if trackTimescale â‰  endTimescale % U32
+    then (((endTime * trackTimescale) % U64 + endTimescale) % U64 + U64 - 1) % U64 / endTimescale   -- rounded up
+    else endTime
   let n â† stts.getSampleNrAtTime te
   some ((n + U32 - 1) % U32)
 
@@ -76,7 +78,10 @@ def cropStsc (raw : List (Nat Ã— Nat Ã— Nat)) (last : Nat) : Option (List (Nat Ã
   let nrChunks := samplesLeft / e.samplesPerChunk
   let nrLeft := samplesLeft - nrChunks * e.samplesPerChunk
   let kept := raw.take (idx + 1)
-  if nrLeft > 0 then some (kept ++ [((e.firstChunk + nrChunks) % U32, nrLeft, r.2.2)]) else some kept
+  if nrLeft > 0 âˆ§ nrChunks = 0 then
+    -- the cut is inside the first chunk of the last kept entry: that entry is shortened
+    some (raw.take idx ++ [(r.1, nrLeft, r.2.2)])
+  else if nrLeft > 0 then some (kept ++ [((e.firstChunk + nrChunks) % U32, nrLeft, r.2.2)]) else some kept
 
 def cropStsz (b : Stsz) (last : Nat) : Option Stsz :=
   if b.uniform = 0 then
